@@ -67,6 +67,32 @@ func arithParser() parsley.Parser {
 
 var arithP = arithParser() // built once, reused for every input
 
+// arithParserB: the same grammar written with the other combinators a user would reach for: Choice instead of Any
+// (literal first, then the parenthesised expression), the operators as a Choice, LeftTrim / RightTrim composed by hand
+func arithParserB() parsley.Parser {
+	var expr, term, factor parser.Func
+	tok := func(c rune) parsley.Parser {
+		return text.RightTrim(text.LeftTrim(terminal.Rune(c), text.WsSpacesNl), text.WsSpacesNl)
+	}
+	num := text.LeftTrim(text.RightTrim(terminal.Integer("int"), text.WsSpacesNl), text.WsSpacesNl)
+	factor = combinator.Memoize(combinator.Choice(
+		num,
+		combinator.SeqOf(tok('('), &expr, tok(')')).Bind(interpreter.Select(1)),
+	))
+	term = combinator.Memoize(combinator.Any(
+		&factor,
+		combinator.SeqOf(&term, combinator.Choice(tok('*'), tok('/')), &factor).Bind(binop),
+	))
+	expr = combinator.Memoize(combinator.Any(
+		&term,
+		combinator.SeqOf(&expr, combinator.Choice(tok('+'), tok('-')), &term).Bind(binop),
+	))
+	return combinator.Sentence(&expr)
+}
+
+var arithPB = arithParserB()
+var arithVariant = 0 // observations alternate between the two grammars
+
 // leftNested: every binary node has its nested binary node (of the same level) on the LEFT
 func treeShape(n parsley.Node) string {
 	nt, ok := n.(parsley.NonTerminalNode)
@@ -98,7 +124,11 @@ func arithObserve(content []byte, base int) J {
 	if m := safely(func() {
 		f, fs := fileAt(content, base)
 		ctx := parsley.NewContext(fs, readerFor(f))
-		v, err := parsley.Evaluate(ctx, arithP)
+		p := arithP
+		if arithVariant++; arithVariant%2 == 0 {
+			p = arithPB
+		}
+		v, err := parsley.Evaluate(ctx, p)
 		if err != nil {
 			e["err"] = err.Error()
 			e["parseerr"] = strings.HasPrefix(err.Error(), "failed to parse the input: ")
@@ -253,7 +283,8 @@ func arithMain(mode string, a args) {
 				die("bad case: %v", err)
 			}
 			cases++
-			o := arithObserve(bytesOf(c.Text), 1+(cases%3)*(cases%7)) // the placement of the file is irrelevant to the value and to line:column
+			arithVariant = cases % 2 // the grammar alternates by case; the placement of the file is irrelevant to the value and to line:column
+			o := arithObserve(bytesOf(c.Text), 1+(cases%3)*(cases%7))
 			bad := o["panic"] != nil
 			switch c.K {
 			case "v":
@@ -281,6 +312,7 @@ func arithMain(mode string, a args) {
 					Text []int `json:"text"`
 				}
 				json.Unmarshal(line, &c)
+				o.put(arithObserve(bytesOf(c.Text), 1))
 				o.put(arithObserve(bytesOf(c.Text), 1))
 			})
 			o.close()
